@@ -13,13 +13,15 @@
  * ops:  1 v = push_bottom(token v), 2 = pop_bottom, 3 = steal.
  * ret:  push 1; pop/steal: token, -1 (WSD_EMPTY), -2 (WSD_ABORT).
  * params: log_size of the initial array, initial value of top = bottom,
- *         drain budget. */
+ *         drain budget [, P = number of tokens 1000000.. pushed before the run starts (untraced set-up; "big" cases
+ *         for thresholds that depend on the queue length, judged by the monitor only)].
+ *       4 = steal until EMPTY (each token taken is reported as the event  tid 5000 919 token). */
 #undef malloc
 #undef free
 #include "harness.h"
 #include "work_stealing_deque.h"
 
-#define ARENA_BYTES (1 << 20)
+#define ARENA_BYTES (1 << 22)
 #define MAX_ARRAYS 64
 static char arena[ARENA_BYTES] __attribute__((aligned(64)));
 static size_t arena_used;
@@ -76,6 +78,13 @@ static void body(int t) {
     } else if (opc == 2) {
       void* r = wsd_work_stealing_deque_pop_bottom(&D);
       rt_event(k + 1, K_RET, (long)(intptr_t)r);
+    } else if (opc == 4) {
+      for (;;) {
+        void* r = wsd_work_stealing_deque_steal(&D);
+        if ((long)(intptr_t)r == -1) break;
+        if ((long)(intptr_t)r != -2) rt_event(5000, K_EV, (long)(intptr_t)r);
+      }
+      rt_event(k + 1, K_RET, -1);
     } else {
       void* r = wsd_work_stealing_deque_steal(&D);
       rt_event(k + 1, K_RET, (long)(intptr_t)r);
@@ -86,9 +95,11 @@ static void body(int t) {
 static void h_run_case(hcase_t* c) {
   cur = c;
   int lg = (int)c->params[0]; long start = c->params[1]; int dmax = (int)c->params[2];
-  if (lg < 0 || lg > 10) { printf("-1\n"); return; }
+  long prefill = c->nparams >= 4 ? c->params[3] : 0;
+  if (lg < 0 || lg > (prefill > 0 ? 15 : 10) || prefill < 0 || prefill > 30000) { printf("-1\n"); return; }
   D.top = start; D.bottom = start;
   D.underlying_array = wsd_circular_array_create((size_t)lg);
+  for (long i = 0; i < prefill; i++) wsd_work_stealing_deque_push_bottom(&D, (void*)(uintptr_t)(1000000 + i));
   rt_reg((void*)&D.top, 8, 0, 8);
   rt_reg((void*)&D.bottom, 8, 1, 8);
   rt_reg((void*)&D.underlying_array, 8, 2, 8);
